@@ -491,6 +491,12 @@ def gen_json_faulty(rng, depth=0):
     return {"m": [[k, gen_json_faulty(rng, depth + 1)] for k in keys]}
 
 
+def contains_item(t):
+    if t[0] == "item":
+        return True
+    return any(contains_item(x) for x in t[1:] if isinstance(x, tuple))
+
+
 def contains_json(t):
     if t[0] == "json":
         return True
@@ -813,6 +819,21 @@ def gen_payloads(entry, rng, n, max_faults=3):
         for _ in range(k):
             p = mutate_once(p, rng, extra)
         out.append((p, k))
+    # every member of every object dropped in turn (a missing field / tag / map entry at every position)
+    if entry.ty[0] == "item" or contains_item(entry.ty):
+        base = gen_valid(entry.ty, rng)
+        drops = []
+        for path in positions(base):
+            cur = get_at(base, path)
+            if isinstance(cur, dict) and "m" in cur:
+                for i in range(len(cur["m"])):
+                    new = copy.deepcopy(cur)
+                    del new["m"][i]
+                    drops.append(set_at(base, path, new))
+        if len(drops) > 8:
+            drops = rng.sample(drops, 8)
+        for q in drops:
+            out.append((q, 1))
     # fault families that random mutation reaches too rarely
     if contains_json(entry.ty):
         # serde_json::Value positions: their only faults are non-finite floats (order-preserving source only)
